@@ -990,9 +990,11 @@ pub mod spec {
             Escape::Unescaped | Escape::UnescapedAtNewline => seq![c],
         }
     }
-    /// "the next byte starts a line" after byte c
+    /// "the next byte starts a line" after byte c: exactly when the last byte written for c is a newline (the `Escape` docs:
+    /// UnescapedAtNewline "inserts a newline character unless on a new line already") - request arguments and NoNewline text never
+    /// write one
     pub open spec fn esc_flag(meta: Escape, ap: Apostrophes, c: u8) -> bool {
-        if (meta == Escape::SpecialNoNewline) && c == 10 && !(ap == Apostrophes::Handle && c == 39) { false } else { c == 10 }
+        c == 10 && !(meta is Spaces) && !(meta is SpecialNoNewline)
     }
     /// escaping of the first n bytes of a fragment: (output, at_line_start afterwards)
     pub open spec fn esc_frag(meta: Escape, ap: Apostrophes, bs: Seq<u8>, n: int, at_start: bool) -> (Seq<u8>, bool)
@@ -3136,13 +3138,15 @@ let ghost out0 = out@; let ghost a0 = at_line_start; let ghost bs = payload.spec
                 verif_it_2.remaining().len() <= verif_all_2.len(),
                 verif_it_2.remaining() == verif_all_2.skip(verif_all_2.len() - verif_it_2.remaining().len()),
                 out@ == out0 + esc_frag(meta, ap, bs, verif_all_2.len() - verif_it_2.remaining().len(), a0).0,
-                at_line_start == esc_frag(meta, ap, bs, verif_all_2.len() - verif_it_2.remaining().len(), a0).1,
+                at_line_start == esc_frag(meta, ap, bs, verif_all_2.len() - verif_it_2.remaining().len(), a0).1, // #line_start_flag_set_exactly_after_a_newline_written
             ensures verif_it_2.remaining().len() == 0,
             decreases verif_it_2.decrease()->Some_0,
 //@@ loopbody 2
 let ghost k = verif_all_2.len() - verif_it_2.remaining().len(); let ghost a_k = at_line_start; let ghost out_k = out@;
 proof { axiom_escape_eq(meta, Escape::SpecialNoNewline); axiom_apostrophes_eq(ap, Apostrophes::Handle); assert(bs[k - 1] == c); assert(a_k == esc_frag(meta, ap, bs, k - 1, a0).1); }
 //@@ insert before 1 `continue;`
+proof { assert(out@ =~= out_k + esc_byte(meta, ap, c, a_k)); } // #each_byte_written_as_the_escaping_table_says
+//@@ insert before 2 `continue;`
 proof { assert(out@ =~= out_k + esc_byte(meta, ap, c, a_k)); } // #each_byte_written_as_the_escaping_table_says
 //@@ insert before 1 `at_line_start = c ==`
 proof { assert(out@ =~= out_k + esc_byte(meta, ap, c, a_k)); } // #each_byte_written_as_the_escaping_table_says
